@@ -60,6 +60,12 @@ def cases(draw):
                 bad = draw(st.sampled_from([M.enc(10 ** 5000), M.enc("k\udcffk"), {"t": "bomb", "v": "NotImplementedError"}]))
                 c["inputs"] += [dict(i, **{f: bad}) for i in c["inputs"][:6] if f in i]
                 break
+        # text handed over as bytes / bytearray (as message queues and key-value stores deliver it): a different value from the str
+        for f in sorted(base):
+            v = M.dec(base[f])
+            if isinstance(v, str) and v.isascii():
+                c["inputs"].append(dict(base, **{f: M.enc(v.encode("ascii"))}))
+                c["inputs"].append(dict(base, **{f: M.enc(bytearray(v.encode("ascii")))}))
         # a value whose every use raises an exception without arguments, in any one field
         if base:
             f = draw(st.sampled_from(sorted(base)))
